@@ -28,17 +28,10 @@ sed -i "s#\"/repo/#\"$WT/#g" "$HC/Cargo.toml"
 cp /verif/known_findings.json "$OUT"/
 RC=0
 for ID in "$@"; do
-  case "$ID" in
-    C07|C08|C09|C10|C11|C12|C17) GROUP=hal ;;
-    C01|C06|C19) GROUP=enc ;;
-    C02|C05) GROUP=ops ;;
-    C03|C04) GROUP=ks ;;
-    C18) GROUP=ser ;;
-    C13|C14) GROUP=bdd ;;
-    C15) GROUP=uint ;;
-    C20) GROUP=sched ;;
-    C16) GROUP=ckks ;;
-  esac
+  # same property -> groups table as ./check
+  GROUPS=$(sed -n "s/^  \(.*|\)\{0,1\}$ID\(|.*\)\{0,1\}) GROUPS=\"\(.*\)\" ;;/\3/p" /verif/check | head -1)
+  [ -z "$GROUPS" ] && { echo "MUTANT $ID: unknown property"; RC=3; continue; }
+  for GROUP in $GROUPS; do
   if [ "$ID" = "C17" ]; then
     export ASAN_OPTIONS="abort_on_error=1:detect_leaks=0:allocator_may_return_null=1:handle_abort=0:handle_segv=0"
     ( cd "$HC" && RUSTFLAGS="-C target-feature=+avx2,+fma -Zsanitizer=address" CARGO_TARGET_DIR="$TGT-asan" cargo build --release -p "pvc-$GROUP" --target x86_64-unknown-linux-gnu >"$OUT/build.log" 2>&1 ) || { echo "MUTANT $ID: BUILD FAILED"; tail -20 "$OUT/build.log"; RC=3; continue; }
@@ -47,11 +40,12 @@ for ID in "$@"; do
     ( cd "$HC" && CARGO_TARGET_DIR="$TGT" cargo build --release -p "pvc-$GROUP" >"$OUT/build.log" 2>&1 ) || { echo "MUTANT $ID: BUILD FAILED"; tail -20 "$OUT/build.log"; RC=3; continue; }
     BIN="$TGT/release/pvc-$GROUP"
   fi
-  VERIF_ROOT="$OUT" "$BIN" "$ID" --tier "$TIER" >"$OUT/$ID.out" 2>"$OUT/$ID.err"
+  VERIF_ROOT="$OUT" VERIF_EVIDENCE_PART="$GROUP" "$BIN" "$ID" --tier "$TIER" >"$OUT/$ID.out" 2>"$OUT/$ID.err"
   E=$?
   V=$(grep -c '^VIOLATION' "$OUT/$ID.out")
-  echo "MUTANT $ID: exit=$E violations=$V $(grep -m1 -E '^(OK|VIOLATION)' "$OUT/$ID.out")"
+  echo "MUTANT $ID/$GROUP: exit=$E violations=$V $(grep -m1 -E '^(OK|VIOLATION)' "$OUT/$ID.out")"
   grep -m3 'unlisted failures' "$OUT/$ID.err" | cut -c1-220
+  done
 done
 git -C /repo worktree remove --force "$WT" >/dev/null 2>&1
 rm -rf "$HC"
